@@ -107,6 +107,17 @@ def main(tier, replay=None):
             il = again if again else il
         if verdict != "ok":
             names += verdict.split(",")
+        # "if at least one transmission and one acknowledgement get through, the call succeeds"
+        # (theorem C09_one_copy_one_ack_suffice): one message, it reached the receiving application,
+        # a datagram of the receiver (with one message every one of them acknowledges it) reached the
+        # sender's node in time (none is delayed or held back) - and the call still ends with a transmit timeout
+        cl = case_by_key.get(key, "")
+        fl = dict(f.split("=", 1) for f in il.replace(" | ", " ").split(" ") if "=" in f)
+        cfl = dict(f.split("=", 1) for f in cl.split(" ") if "=" in f)
+        if cfl.get("m") == "1" and fl.get("res") == "timeout" and fl.get("delivered") == "0" \
+                and fl.get("backs", "0") not in ("", "0") \
+                and not any(a[:1] in ("t", "h") for a in cfl.get("ba", "").split(".")) and cfl.get("others", "0:0").endswith(":0"):
+            names.append("timeout-although-delivered-and-acknowledged")
         for name in names:
             if name == "ok-not-delivered":
                 # known class: the message was overtaken by more than 16 newer counters of its session
